@@ -74,9 +74,9 @@ Definition xapp (X Y : exits) : exits :=
   mkx (xn X ++ xn Y) (xe X ++ xe Y) (xr X ++ xr Y) (xb X ++ xb Y) (xc X ++ xc Y).
 Definition xcompress (X : exits) : exits :=
   mkx (compress (xn X)) (compress (xe X)) (compress (xr X)) (compress (xb X)) (compress (xc X)).
+(* NB: f A is computed once per A (a component-wise flat_map would recompute it five times per level) *)
 Definition xflat (f : astate -> exits) (l : list astate) : exits :=
-  mkx (flat_map (fun A => xn (f A)) l) (flat_map (fun A => xe (f A)) l) (flat_map (fun A => xr (f A)) l)
-      (flat_map (fun A => xb (f A)) l) (flat_map (fun A => xc (f A)) l).
+  fold_right (fun A acc => xapp (f A) acc) x0 l.
 
 (* weaken a candidate loop invariant so that it is implied by the given states *)
 Definition weaken (A : astate) (l : list astate) : astate :=
